@@ -211,6 +211,7 @@ pub fn alphabet() -> Vec<Op> {
         }
     }
     ops.push(Op::CSet { c: 1, key: "b".into(), value: json!(3), version: u64::MAX });
+    ops.push(Op::CSet { c: 1, key: "b".into(), value: json!(1), version: 0 });
     ops.push(Op::CSet { c: 1, key: "x/y/z".into(), value: json!(3), version: 5 });
     for key in ["a", "a/b", "a/b/c", "b", "x/y", "a/#"] {
         ops.push(Op::Delete { c: 0, key: key.into() });
@@ -301,8 +302,11 @@ pub fn random_op(rng: &mut Rng, m: &model::Store, clients: usize, with_publish: 
     } else {
         random_key(rng, 3)
     };
+    // every sixth write repeats the value that is stored already (unique subscriptions, kind / version changes
+    // without a value change)
+    let repeat = m.map.get(&key).filter(|_| rng.chance(1, 6)).map(|e| e.value.clone());
     match rng.below(if with_publish { 23 } else { 21 }) {
-        0..=6 => Op::Set { c, key, value: random_value(rng, 2) },
+        0..=6 => Op::Set { c, key, value: repeat.unwrap_or_else(|| random_value(rng, 2)) },
         7..=11 => {
             let cur = m.map.get(&key).map(|e| e.version).unwrap_or(0);
             let version = match rng.below(8) {
@@ -312,7 +316,7 @@ pub fn random_op(rng: &mut Rng, m: &model::Store, clients: usize, with_publish: 
                 3 => 0,
                 _ => cur,
             };
-            Op::CSet { c, key, value: random_value(rng, 2), version }
+            Op::CSet { c, key, value: repeat.unwrap_or_else(|| random_value(rng, 2)), version }
         }
         12..=14 => Op::Delete { c, key },
         15..=16 => Op::PDelete { c, pattern: random_pattern(rng, 3) },
